@@ -73,7 +73,7 @@ class Goldens:
 # ------------------------------------------------------------ one seeded run
 def judge(prop: str, plan: dict, res: dict, goldens):
     if prop == "C09":
-        return oracles.c09_violations(plan, res), []
+        return oracles.c09_violations(plan, res) + oracles.c09_cli_rules(plan, res), []
     return oracles.c18_violations(plan, res, goldens)
 
 
@@ -450,7 +450,7 @@ def single_fault_sweep(prop: str, seeds, jobs: int):
         r = runner.run_plan(p1)
         if r["status"] != "ok":
             return [{"sig": "process-%s" % r["status"], "op_index": f["op"], "op": "?", "outcome": "", "plan": p1, "phase": "sweep"}], 0
-        vs = oracles.c09_violations(p1, r["result"]) + oracles.c09_silent_failures(res0, r["result"])
+        vs = oracles.c09_violations(p1, r["result"]) + oracles.c09_cli_rules(p1, r["result"]) + oracles.c09_silent_failures(res0, r["result"])
         fired = sum(len(rec.get("fired") or []) for rec in r["result"]["history"])
         for v in vs:
             v["plan"] = p1
